@@ -115,13 +115,14 @@ impl Op {
     }
 }
 
-fn gen_op(rng: &mut Rng, pool: &IdPool, short_timeout: bool) -> Op {
-    let id = pool.any_id(rng);
+fn gen_op(rng: &mut Rng, pool: &IdPool, short_timeout: bool, conn_pct: u64, pending_now: &[Id]) -> Op {
+    // one operation in six is aimed at a node that is waiting in a pending slot right now
+    let id = if !pending_now.is_empty() && rng.chance(1, 6) { *rng.pick(pending_now) } else { pool.any_id(rng) };
     match rng.below(100) {
         0..=39 => Op::Insert {
             id,
             ver: rng.below(4) as u32,
-            connected: rng.chance(3, 5),
+            connected: rng.below(100) < conn_pct,
             incoming: rng.bool(),
         },
         40..=49 => Op::UpdateNode {
@@ -135,7 +136,7 @@ fn gen_op(rng: &mut Rng, pool: &IdPool, short_timeout: bool) -> Op {
         },
         50..=69 => Op::UpdateStatus {
             id,
-            connected: rng.bool(),
+            connected: rng.below(100) < conn_pct.clamp(25, 75),
             incoming: match rng.below(3) {
                 0 => None,
                 1 => Some(true),
@@ -199,6 +200,9 @@ pub fn scenario(seed: u64, _p: &Params, rep: &mut Report) {
         pending_created: HashMap::new(),
     };
     let nops = 120 + rng.usize(200);
+    // share of connected reports: mostly balanced, sometimes nearly all nodes stay disconnected
+    // (whole buckets without a connected node) or nearly all are connected
+    let conn_pct = *rng.pick(&[60u64, 60, 50, 8, 92]);
     let mut ops_log: Vec<Value> = Vec::new();
     let mut prev = snapshot(&table);
     let mut promotions = 0u64;
@@ -211,11 +215,12 @@ pub fn scenario(seed: u64, _p: &Params, rep: &mut Report) {
             Op::Insert {
                 id: pool.any_id(&mut rng),
                 ver: 0,
-                connected: rng.chance(1, 2),
+                connected: rng.below(100) < conn_pct.min(50),
                 incoming: rng.bool(),
             }
         } else {
-            gen_op(&mut rng, &pool, short)
+            let pending_now: Vec<Id> = prev.iter().filter_map(|b| b.pending.as_ref().map(|n| n.id)).collect();
+            gen_op(&mut rng, &pool, short, conn_pct, &pending_now)
         };
         rep.count(&format!("op_kind:{}", op.kind()));
         ops_log.push(op.json());
